@@ -195,7 +195,7 @@ class DatetimeModShim(types.ModuleType):
         w = world
         real = _real_datetime.datetime
 
-        class DT:
+        class DT(metaclass=_DTMeta0):
             @staticmethod
             def now(tz=None):
                 return Instant(w.clock.read("lockdt"))
